@@ -47,6 +47,19 @@ Definition field_varint (key : byte) (v : Z) (bs : list byte) : Prop :=
 Definition sn_wire (s n : Z) (bs : list byte) : Prop :=
   exists f1 f2, bs = f1 ++ f2 /\ field_varint x08 s f1 /\ field_varint x10 n f2.
 
+(* a message-typed field number [fno] holding the serialised message [inner]:
+   tag (fno << 3 | 2), length, payload - both varints canonical *)
+Definition msg_field_wire (fno : Z) (inner bs : list byte) : Prop :=
+  exists kb lb, bs = kb ++ lb ++ inner /\ canonical (2 + fno * 8) kb /\ canonical (Zlength inner) lb.
+(* a message with one Timestamp (Duration) field: proto3 omits the field when it is the
+   default (betterproto: the epoch / the zero span) *)
+Definition ts_field_wire (fno t : Z) (bs : list byte) : Prop :=
+  (t = 0 /\ bs = []) \/
+  (t <> 0 /\ exists inner, msg_field_wire fno inner bs /\ sn_wire (fst (ts_of_us t)) (snd (ts_of_us t)) inner).
+Definition dur_field_wire (fno d : Z) (bs : list byte) : Prop :=
+  (d = 0 /\ bs = []) \/
+  (d <> 0 /\ exists inner, msg_field_wire fno inner bs /\ sn_wire (fst (dur_of_us d)) (snd (dur_of_us d)) inner).
+
 (* ---- decimal notation (positional, most significant digit first) ---- *)
 Definition digit (d : Z) : byte := byte_of_Z (48 + d).
 
@@ -94,44 +107,50 @@ Definition dur_json (s n : Z) : list byte :=
 
 (* what a conforming reader makes of a Duration string: "-"? digits ("." 1..9 digits)? "s".
    (Duration.FromJsonString; any number of fractional digits up to nanosecond precision) *)
-Definition dur_parse (v : list byte) : option (Z * Z) :=
-  let '(neg, r0) := match v with b :: r => if Byte.eqb b cMINUS then (true, r) else (false, v) | [] => (false, v) end in
+Definition is_nil {A} (l : list A) : bool := match l with [] => true | _ => false end.
+
+Definition dur_parse_unsigned (neg : bool) (r0 : list byte) : option (Z * Z) :=
   let '(ip, r1) := span_digits r0 in
-  match ip with
+  let sgn := if neg then -1 else 1 in
+  if is_nil ip then None else
+  match r1 with
+  | b :: r2 =>
+      if Byte.eqb b cS then (if is_nil r2 then Some (sgn * dval ip, 0) else None)
+      else if Byte.eqb b cDOT then
+        let '(fp, r3) := span_digits r2 in
+        if is_nil fp then None else
+        match r3 with
+        | c :: r4 =>
+            if Byte.eqb c cS && is_nil r4 && (Z.of_nat (length fp) <=? 9)
+            then Some (sgn * dval ip, sgn * (dval fp * 10 ^ (9 - Z.of_nat (length fp))))
+            else None
+        | [] => None
+        end
+      else None
   | [] => None
-  | _ :: _ =>
-      let sgn := if neg then -1 else 1 in
-      match r1 with
-      | [b] => if Byte.eqb b cS then Some (sgn * dval ip, 0) else None
-      | b :: r2 =>
-          if Byte.eqb b cDOT then
-            let '(fp, r3) := span_digits r2 in
-            match fp, r3 with
-            | _ :: _, [c] =>
-                if Byte.eqb c cS && (length fp <=? 9)%nat
-                then Some (sgn * dval ip, sgn * (dval fp * 10 ^ (9 - Z.of_nat (length fp))))
-                else None
-            | _, _ => None
-            end
-          else None
-      | [] => None
-      end
+  end.
+
+Definition dur_parse (v : list byte) : option (Z * Z) :=
+  match v with
+  | b :: r => if Byte.eqb b cMINUS then dur_parse_unsigned true r else dur_parse_unsigned false v
+  | [] => None
   end.
 
 (* what a reader makes of the part of an RFC 3339 UTC string that follows the calendar
    part: "Z" or "." digits "Z"; microseconds (digits beyond the sixth are dropped) *)
 Definition ts_suffix_parse (v : list byte) : option Z :=
   match v with
-  | [b] => if Byte.eqb b cZ then Some 0 else None
   | b :: r =>
-      if Byte.eqb b cDOT then
+      if Byte.eqb b cZ then (if is_nil r then Some 0 else None)
+      else if Byte.eqb b cDOT then
         let '(fp, r2) := span_digits r in
-        match fp, r2 with
-        | _ :: _, [c] =>
-            if Byte.eqb c cZ then
+        if is_nil fp then None else
+        match r2 with
+        | c :: r3 =>
+            if Byte.eqb c cZ && is_nil r3 then
               let fp6 := firstn 6 fp in Some (dval fp6 * 10 ^ (6 - Z.of_nat (length fp6)))
             else None
-        | _, _ => None
+        | [] => None
         end
       else None
   | [] => None
